@@ -295,6 +295,7 @@ def run(ctx):
     check_code_exec_nonnull(db, rep, "D6-FALLBACK-NONNULL")
 
     d7_error_latch(db, rep)
+    snapshot_slots(db, rep, "D5c-SNAPSHOT-SLOTS")
 
 
 
@@ -331,3 +332,38 @@ def d7_error_latch(db, rep):
                       line=x.line)
     if n < 1:
         raise AnalysisBroken("no store clearing OrcCompiler.error found (the loop-counter tolerance in orc_compiler_global_reg_alloc is the reference instance)")
+
+
+def snapshot_slots(db, rep, rule):
+    """orc_executor_set_program copies the program's entry point and code object into arrays[A1] / arrays[A2].  Those copies
+    go stale when the program is recompiled or reset (the old chunk is released), so library code may read them only where
+    no program is attached (`ex->program == NULL`, code-only executors); with a program attached the live
+    program->code_exec / program->orccode is the only valid source."""
+    a1, a2 = db.enum("ORC_VAR_A1"), db.enum("ORC_VAR_A2")
+    n = 0
+    for f in db.tu("orcexecutor").main_functions():
+        reads = []
+        for x in f.walk():
+            if x.k == "ArraySubscriptExpr" and (access_path(x.c[0]) or "").endswith("->arrays") and strip_casts(x.c[1]) is not None and strip_casts(x.c[1]).v in (a1, a2):
+                p = x.parent
+                while p is not None and p.k in ("ParenExpr", "CStyleCastExpr", "ImplicitCastExpr"):
+                    p = p.parent
+                if p is not None and p.k == "BinaryOperator" and p.op == "=" and any(y is x for y in p.c[0].walk()):
+                    continue
+                reads.append(x)
+        if not reads:
+            continue
+        rep.saw(f)
+        fc = Facts(f)
+        for x in reads:
+            n += 1
+            base = access_path(x.c[0])[:-len("->arrays")]
+            conds = [(access_path(c[0]), c[1]) for c in fc.conds(x) if c[0] != "switch"]
+            slot = "A1" if strip_casts(x.c[1]).v == a1 else "A2"
+            rep.check((base + "->program", False) in conds, rule, where(f), "read:arrays[%s]@%s" % (slot, f.name),
+                      "the %s snapshot is read only where %s->program is known to be NULL" % (slot, base),
+                      "%s reads the snapshot %s->arrays[ORC_VAR_%s] on a path where a program may be attached: after that program is recompiled or reset "
+                      "the copy points into a released code chunk (use after free; another program's code may have been placed there)" % (f.name, base, slot),
+                      line=x.line)
+    if n < 2:
+        raise AnalysisBroken("only %d reads of the A1/A2 snapshot slots found in orcexecutor.c" % n)
